@@ -36,7 +36,7 @@ CONSTANTS
 
 def doc_plan(tier):
     if tier == "quick":
-        return [(4, 3, "fstructure", "default"), (3, 2, "finline", "default"), (3, 2, "fcode", "default"), (3, 2, "fstructure", "single"),
+        return [(5, 3, "fstructure", "default"), (3, 2, "finline", "default"), (3, 2, "fcode", "default"), (3, 2, "fstructure", "single"),
                 (2, 2, "finline", "single")]
     return [(6, 3, "fstructure", "default"), (4, 3, "finline", "default"), (4, 3, "fcode", "default"), (4, 3, "fstructure", "single"),
             (3, 2, "finline", "single"), (3, 2, "fcode", "single"), (3, 2, "fstructure", "pairs"), (3, 2, "finline", "pairs")]
@@ -58,7 +58,7 @@ def run(ctx):
     rc, res, _ = ctx.harness(["format", "model", r["out"]], timeout=3000)
     ctx.absorb(res)
     conf = confirm_with(ctx, "format")
-    model_cands = [c for c in ctx.candidates if conf(c)]
+    model_cands = ctx.keep_confirmed(ctx.candidates, conf)
     ctx.candidates = []
     # canonical documents (second clause): direction A
     jobs = [dict(module="Doc", cfg_text=doc_cfg(*p), name="Doc_%s_%s_%d" % (p[2], p[3], p[0]), workers=8, timeout=6000) for p in doc_plan(ctx.tier)]
@@ -66,7 +66,7 @@ def run(ctx):
     rc, res, _ = ctx.harness(["doc", "c20"] + [x["out"] for x in rs], timeout=6000)
     ctx.absorb(res)
     conf = confirm_with(ctx, "doc")
-    doc_cands = [c for c in ctx.candidates if conf(c)]
+    doc_cands = ctx.keep_confirmed(ctx.candidates, conf)
     ctx.candidates = []
     # all inputs x failure points (first clause): direction B
     nsh = 16
@@ -78,8 +78,7 @@ def run(ctx):
     ctx.candidates = []
     ctx.validate_traces("Format", base, nsh, CONSTS, "C20", head=HEAD, workers=1, parallel=16, timeout=3000)
     trace_cands = list(ctx.candidates)
-    oks = tracefam.batch_confirmer(ctx, "Format", regen, CONSTS, HEAD)(trace_cands) if trace_cands else []
-    ctx.candidates = model_cands + doc_cands + panic_cands + [c for c, ok in zip(trace_cands, oks) if ok]
+    ctx.candidates = model_cands + doc_cands + panic_cands + ctx.keep_confirmed_batch(trace_cands, tracefam.batch_confirmer(ctx, "Format", regen, CONSTS, HEAD))
     ctx.exhaustive = True
     ctx.rule = ("writer machine: every Push/Pop/S sequence <= 3/4 operations over 9 strings x 5 indents x every failure point, replayed on the real "
                 "formatWriter in both writer flavours; Format on all inputs: spec examples, seeded mixed sources, fragment pairs, every string <= 3/4 over a "
@@ -107,8 +106,8 @@ def selftest(ctx):
     ctx.build_harness()
     base = ctx.scratch + "/self.ndjson"
     ctx.harness(gen(base), env={"VERIF_SHARDS": "64"})
-    lines = open(base + ".0").read().splitlines()[:200]
-    rl = open(base + ".replay.0").read().splitlines()[:200]
+    lines = open(base + ".0").read().split("\n")[:200]
+    rl = open(base + ".replay.0").read().split("\n")[:200]
     bad = 0
     out = []
     for i, ln in enumerate(lines):
